@@ -63,6 +63,7 @@ func cmdVerify(args []string) {
 					os.MkdirAll(*dump, 0o755)
 					name := strings.NewReplacer("/", "_", " ", "_", "*", "", "(", "", ")", "").Replace(o.Name)
 					os.WriteFile(filepath.Join(*dump, name+".smt2"), []byte("(set-logic ALL)\n"+res.unit.script(o)+"(check-sat)\n"), 0o644)
+					os.WriteFile(filepath.Join(*dump, name+".sliced.smt2"), []byte("(set-logic ALL)\n"+res.unit.scriptSliced(o)+"(check-sat)\n"), 0o644)
 				}
 			}
 		}
